@@ -140,12 +140,21 @@ def iteration(index, rep):
                             return Opaque(obj_.name + "[]")
                         return orig_getitem(obj_, key_, n_)
 
+                    orig_compare = interp.compare
+
+                    def compare2(op_, a_, b_, n_):
+                        if isinstance(a_, Opaque) or isinstance(b_, Opaque):
+                            return Opaque("map-mask")        # a row selection of the map table (world[column] == code)
+                        return orig_compare(op_, a_, b_, n_)
+
+                    interp.compare = compare2
                     interp.assign, interp.getitem = assign2, getitem2
                     try:
                         return interp.call_function(helper, [Opaque("world")] + list(a[1:]), dict(kw), Obj(cls, {}, "self"), node)
                     finally:
                         interp.call_hook = prev_hook
                         interp.assign, interp.getitem = orig_assign, orig_getitem
+                        interp.compare = orig_compare
                 return None
             if d in ("print",):
                 return None
